@@ -160,7 +160,13 @@ def replay_batch(chk, hists, stats, label, keep):
         if v['events'] != len(tr['vevents']):
             raise MachineryError(f'trace {tr["tid"]}: {v["events"]} of {len(tr["vevents"])} events consumed')
         vstep = tr['vevents'][v['step'] - 1]['k'] if v['step'] else 0
-        if (v['verdict'] == 'ok') != (mm is None) or (mm is not None and (v['verdict'] != mm['clause'] or vstep != mm['step'])):
+        if v['verdict'] != 'ok' and mm is None:
+            # the trace specification rejects an outcome the replay comparison let through (it judges the random
+            # outcomes -- folds, samples -- which the replay cannot predict): a violation, reported as such
+            mm = dict(clause=v['verdict'], step=vstep, got='(recorded event)', want='(one of the outcomes the specification allows)',
+                      before=None, op=v['verdict'].split(':')[0], features=[])
+            tr['mismatch'] = mm
+        elif (v['verdict'] == 'ok') != (mm is None) or (mm is not None and (v['verdict'] != mm['clause'] or vstep != mm['step'])):
             raise MachineryError('replay and trace validation disagree on one history: '
                                  f'replay {mm and (mm["clause"], mm["step"])}, trace {v}; history {describe(h)} on {h["init"]}')
         if mm is None:
